@@ -9,19 +9,42 @@ namespace ErgVerif.C14
 open ErgVerif.Marshal ErgVerif.Bytecode
 
 /-- validate a marshalled code object and every code object nested in its constants; `none` = not a well-formed code object -/
-def validateBytes (t : VerTable) (nlines : Nat) (bs : Bytes) : Option (List Report) :=
+def validateBytes (t : VerTable) (nlines : Nat) (bs : Bytes) : Option (List (CodeView × Report)) :=
   match pyRead t.minor bs with
   | some (v, []) =>
     let cs := allCodes t.minor 64 v
     if cs.isEmpty then none
     else cs.foldr (fun c acc => match c, acc with
-      | some c, some rs => some (validate1 t c nlines :: rs)
+      | some c, some rs => some ((c, validate1 t c nlines) :: rs)
       | _, _ => none) (some [])
   | _ => none
 
 /-- class of finding `C14-linetable-310plus`: the line-table clause for targets ≥ 3.10 (`push_lnotab` writes the ≤ 3.9 `co_lnotab`
     format for every target) -/
 def K_linetable (minor : Nat) : Bool := decide (minor ≥ 10)
+
+/-- class of finding `C14-lnotab-large-delta`: a `co_lnotab` (targets ≤ 3.9) in which `push_lnotab` had to split a delta: a `(255, 0)`
+    or `(0, 127)` chunk, or a line increment byte ≥ 128 (read as negative since 3.6) -/
+def lnotabChunked : Bytes → Bool
+  | a :: l :: rest => decide (a = 255) || decide (l ≥ 127) || lnotabChunked rest
+  | _ => false
+def K_lnotabLarge (minor : Nat) (c : CodeView) : Bool := decide (minor ≤ 9) && lnotabChunked c.linetable
+
+/-- class of finding `C14-with-exit-unbalanced`: a code object for a target ≤ 3.10 that contains SETUP_WITH (opcode 143): the handler
+    path of `with!` (exception suppressed by `__exit__`) reaches the join with three values more than the normal path -/
+def K_with (t : VerTable) (c : CodeView) : Bool :=
+  decide (t.minor ≤ 10) && (match decode t c.code with | some is => is.any (fun i => i.op = 143) | none => false)
+
+/-- which failing clauses of a report are explained by a recorded finding -/
+def explained (t : VerTable) (c : CodeView) (r : Report) : Option String :=
+  if !r.decoded || !r.indices then none
+  else
+    let linesK : Option String := if r.lines then some "" else if K_linetable t.minor then some "C14-linetable-310plus"
+      else if K_lnotabLarge t.minor c then some "C14-lnotab-large-delta" else none
+    let stackK : Option String := if r.stack && r.jumps then some "" else if r.jumps && K_with t c then some "C14-with-exit-unbalanced" else none
+    match linesK, stackK with
+    | some a, some b => some (if b ≠ "" then b else a)
+    | _, _ => none
 
 /-- the clauses the finding does not cover -/
 def Report.okButLines (r : Report) : Bool := r.decoded && r.stack && r.jumps && r.indices
